@@ -31,6 +31,10 @@ ASSUMPTIONS = [
     "final distance to the reference optimum <= 2e-3*range and <= 5 % of the initial distance, constraints <= 1e-5 (measured on the unchanged "
     "tree: <= 2e-4 range, <= 1e-6); class B (interior optimum/inactive constraints): distance <= 3 % of range "
     "(oscillation amplitude from the minimum asymptote distance 1/asybound^2) and constraints <= 1e-5",
+    "constraints are generated with unit gradient norm (multipliers << the elastic penalty c_i = 1000 of the MMA subproblem; beyond it MMA trades "
+    "infeasibility against the objective by design)",
+    "a run cut off by maxit on a problem with a coupled (non-separable) quadratic part only has to have reduced its distance to the optimum; a run "
+    "that stops by its own step-size criterion must be within 2e-3 (tolx 1e-7) / 1e-2 (tolx 1e-4) of the range of every variable",
     "reference optimum of quadratic problems from scipy SLSQP (ftol 1e-14), of sum c_i/x_i from an analytic multiplier bisection",
 ]
 FLOORS = {"quick": {"cases_held": 50, "subproblems_checked": 1200, "writebacks_checked": 1200, "multi_signal_runs": 25,
@@ -173,7 +177,9 @@ def make_problem(kind, rng):
             bb = max(a @ t0, a @ xfeas) + rng.uniform(0.5, 2.0)       # inactive at the optimum
         else:
             bb = a @ xfeas + rng.uniform(0.1, 1.0)
-        sc = 1.0 / max(1.0, np.linalg.norm(a))
+        # unit gradient: MMA treats constraints through elastic variables with the finite penalty c_i = 1000, so a constraint
+        # whose gradient is tiny compared with the objective's (multiplier > 1000) is *meant* to be traded against the objective
+        sc = 1.0 / np.linalg.norm(a)
         cons.append((a * sc, bb * sc))
         funs.append(lambda x, a=a * sc, bb=bb * sc: (float(a @ x - bb), a.copy()))
     from scipy.optimize import minimize
